@@ -40,14 +40,15 @@ PROPS = {
                ("gf255_m64_mul", 120, "quick", ARITH6, 300, PORTFOLIO), ("gf255_m64_ops", None, "quick"), ("modint_lin", 60, "quick"),
                ("modint_m0i", 60, "quick"), ("gfsecp256k1_mul", 120, "quick", ARITH6, 300, PORTFOLIO),
                ("modint_monty", 120, "quick", (), 400), ("modint_mul_p1", 120, "quick", (), 400), ("modint_mul_p2", 120, "quick", (), 400),
-               ("modint_mul_p3", 120, "quick", (), 400)],
+               ("modint_mul_p3", 120, "quick", (), 400),
+               ("modint_sq_p1", 400, "quick", ARITH6, 600), ("modint_sq_p2", 400, "quick", ARITH6, 600)],
         kani=_gf255_k(["k_add", "k_sub", "k_neg", "k_half"]),
         cases=_f(["add", "sub", "neg", "half", "mul", "mul2", "mul4", "mul8", "mul16", "mul32", "mulk", "mul_small", "smallmul", "mul_b127",
                   "square", "xsquare", "bits"]),
-        level_text="GF255<MQ> (64-bit limbs; instantiated as GF25519, GF255e, GF255s): add, sub, neg, half, mul2..mul32, the full 4x4-limb multiplication and the dedicated squaring with their two-step pseudo-Mersenne reduction, repeated squaring (loop invariant, any n) and every +,-,* operator impl are proved by Verus against fe(result) == op(fe(args)) mod 2^255-MQ for every limb pattern and every admissible MQ; add/sub/neg/half additionally by Kani on the full 2^512 input domain. ModInt256<M0..M3> (all scalar fields and the P-256 field; any odd modulus with a non-zero top limb): set_add (both code paths), set_sub, set_neg, set_mul2/3/4/8/16/32 proved by Verus on the internal (Montgomery) representation with the invariant value < m. make_m0i (the -1/m0 mod 2^64 Newton iteration behind every Montgomery reduction) proved for every odd m0. GFsecp256k1::set_mul (product and the two-fold 2^32+977 reduction) proved. ModInt256 Montgomery reduction (set_montyred) and Montgomery multiplication (set_mul, all three code paths, as three units that split the contract by the path condition on the modulus; the other branches are proved unreachable in each): result < m and result*2^256 == a*b (mod m), for every modulus, given the M0I property that make_m0i is proved to establish. The other field types and backends: executable-postcondition stand-in only.",
+        level_text="GF255<MQ> (64-bit limbs; instantiated as GF25519, GF255e, GF255s): add, sub, neg, half, mul2..mul32, the full 4x4-limb multiplication and the dedicated squaring with their two-step pseudo-Mersenne reduction, repeated squaring (loop invariant, any n) and every +,-,* operator impl are proved by Verus against fe(result) == op(fe(args)) mod 2^255-MQ for every limb pattern and every admissible MQ; add/sub/neg/half additionally by Kani on the full 2^512 input domain. ModInt256<M0..M3> (all scalar fields and the P-256 field; any odd modulus with a non-zero top limb): set_add (both code paths), set_sub, set_neg, set_mul2/3/4/8/16/32 proved by Verus on the internal (Montgomery) representation with the invariant value < m. make_m0i (the -1/m0 mod 2^64 Newton iteration behind every Montgomery reduction) proved for every odd m0. GFsecp256k1::set_mul (product and the two-fold 2^32+977 reduction) proved. ModInt256 Montgomery reduction (set_montyred) Montgomery multiplication (set_mul, all three code paths) and squaring (set_square, both code paths) - one unit per code path, splitting the contract by the path condition on the modulus; the other branches are proved unreachable in each: result < m and result*2^256 == a*b (mod m), for every modulus, given the M0I property that make_m0i is proved to establish. The other field types and backends: executable-postcondition stand-in only.",
         assumptions=["ModInt256::M0I is an opaque constant in the Montgomery units; its defining property (M0*M0I == -1 mod 2^64) is a precondition of set_montyred/set_mul and is what make_m0i(M0), which the source assigns to M0I, is proved to return"],
         level_note="Trusted: Verus+Z3, Kani/CBMC, the x86 add-with-carry intrinsics (assumed to behave as the portable arms that are proved), extraction transformations listed in evidence. Not reached by any contract: ModInt256, GF448, GFsecp256k1, gfgen, binary fields, 32-bit/51-bit/clmul backends.",
-        not_reached=["ModInt256 set_square / set_half / set_montylin (stand-in only)", "GF448", "GFsecp256k1", "define_gfgen! (ed448 scalar)", "GFb127/GFb254",
+        not_reached=["ModInt256 set_half / set_montylin / set_div (stand-in only)", "GF448", "GFsecp256k1", "define_gfgen! (ed448 scalar)", "GFb127/GFb254",
                      "GF255 set_mul_small, set_lin, set_lindiv31abs (stand-in only)", "gf255_m51, w32 backend, gfb254_x86clmul/arm64pmull"],
     ),
     "C03": dict(
@@ -142,9 +143,18 @@ PROPS = {
     ),
     "C14": dict(
         title="X25519 and X448 compute the RFC 7748 functions on all inputs",
-        verus=[], kani=[],
+        verus=[("x25519", None, "quick"), ("x448", None, "quick"), ("gf255_m64_ops", None, "quick"), ("gf255_m64_lin", None, "quick"),
+               ("gf255_m64_shift", None, "quick"), ("gf255_m64_mul", 120, "quick", ARITH6, 300, PORTFOLIO)],
+        kani=[("gf255::gf25519::k_decode_reduce32", "quick", "full-domain"), ("gf255::gf25519::k_normalized_encode", "quick", "full-domain")],
         cases=["x25519_ladder", "x25519_base", "x448_ladder", "x448_base"],
-        level="exploration",
+        level_text="x25519() and x448() are proved by Verus, for every point string and every scalar string, to return the byte string whose little-endian value is the RFC 7748 section 5 function: scalar clamping, masking of the top bit of u (X25519), reduction of non-canonical u, the ladder loop (inductive invariant: the five state variables equal the RFC pseudo-code's state after the same iterations, a24 = 121665 / 39081), the final conditional swap and x2/z2 with x/0 = 0. For X25519 the field operations used (+, -, *, square, mul_small, cswap) are the GF255 contracts discharged in the same run, decode_reduce and encode are proved by Kani for every 32-byte string / every element (MQ = 19); the field division is an assumed contract (C12). For X448 every GF448 operation is an assumed contract. x25519_base / x448_base (Edwards generator multiplication and birational map): stand-in only.",
+        level_note="The loop `for t in (0..N).rev()` is rewritten mechanically to an equivalent `while` (documented extraction transformation, checked by the erasure check).",
+        assumptions=["GF255 Div: fe(x/y) is the field quotient, x/0 == 0 (assumed contract; property C12, stand-in there)",
+                     "GF255::decode_reduce / encode contracts are used by the Verus unit as assumed contracts and proved separately by the Kani harnesses k_decode_reduce32 / k_normalized_encode for GF25519 on the full input domain (the link between the two statements - LE value of 32 bytes - is by reading, not mechanical)",
+                     "every GF448 operation used by x448() (add, sub, mul, square, mul_small, cswap, decode_reduce, encode, div): assumed contracts, GF448 is not under contract",
+                     "RFC 7748 states the final step as x_2 * z_2^(p-2); the specification uses the field quotient with x/0 = 0, equal to it by Fermat's little theorem (not machine-checked)",
+                     "k_t of the RFC ((k >> t) & 1 of the little-endian integer) is specified at byte level as bit (t mod 8) of byte (t div 8)"],
+        not_reached=["x25519_base, x448_base, Point::to_montgomery_u"],
     ),
     "C16": dict(
         title="LMS never reuses a one-time key and accepts exactly its own signatures",
